@@ -115,20 +115,30 @@ fn join_check<const SET: bool, const N: usize, const OC: usize>(steps: usize) {
     let mut out = [(0u8, 0u8, 0u8); OC];
     let mut nout = 0usize;
     let mut ended = false;
-    let mut k = 0;
-    while k < steps {
-        match j.as_mut().pull(&mut ()) {
-            PullStep::Ready((key, (v1, v2)), ()) => {
-                assert!(!ended, "C13 join produced a pair after it had ended");
-                assert!(nout < OC, "C13 join produced more pairs than the product of the inputs");
-                out[nout] = (key, v1, v2);
-                nout += 1;
+    // The caller's polls are written out (no loop): `SymmetricHashJoin::pull` has an inner `loop` that
+    // CBMC must unroll to the harness-wide bound at every call site, so the bound is kept at the inner
+    // loop's real maximum (inputs still to come + 1) instead of the number of polls.
+    macro_rules! step {
+        () => {
+            if !ended {
+                match j.as_mut().pull(&mut ()) {
+                    PullStep::Ready((key, (v1, v2)), ()) => {
+                        assert!(nout < OC, "C13 join produced more pairs than the product of the inputs");
+                        out[nout] = (key, v1, v2);
+                        nout += 1;
+                    }
+                    PullStep::Pending(_) => {}
+                    PullStep::Ended(_) => ended = true,
+                }
             }
-            PullStep::Pending(_) => assert!(!ended, "C13 join reported Pending after it had ended"),
-            PullStep::Ended(_) => ended = true,
-        }
-        k += 1;
+        };
     }
+    let _ = steps;
+    step!(); step!(); step!(); step!(); step!(); step!(); step!(); step!(); step!(); step!();
+    if N > 2 {
+        step!(); step!(); step!(); step!(); step!(); step!(); step!();
+    }
+    // (`SymmetricHashJoin` does not claim `FusedPull`: it is not polled again after its end)
     assert!(ended, "C13 join did not end although both inputs ended");
     // (a) every emitted pair has exactly its expected multiplicity:
     //     (multiplicity of (k,v1) on the left) x (multiplicity of (k,v2) on the right)
@@ -161,15 +171,15 @@ fn join_check<const SET: bool, const N: usize, const OC: usize>(steps: usize) {
             assert!(found, "C13 a matching left/right pair was never emitted");
         }
     }
-    cov!(nout >= 2 && pl > 0 && pr > 0, "two results with pendings on both sides");
+    cov!(nout + 1 >= N && pl > 0 && pr > 0, "results with pendings on both sides");
     cov!(nout == 0 && mult::<SET, N>(&l0, kv(l0.items[0]).0, kv(l0.items[0]).1) > 0 && mult::<SET, N>(&r0, kv(r0.items[0]).0, kv(r0.items[0]).1) > 0, "no key in common");
 }
 
 //@ heavy=1
-harness!(c13_join_set_2, 12, { join_check::<true, 2, 4>(10); });
+harness!(c13_join_set_2, 7, { join_check::<true, 2, 4>(10); });
 //@ heavy=1
-harness!(c13_join_multiset_2, 12, { join_check::<false, 2, 4>(10); });
+harness!(c13_join_multiset_2, 7, { join_check::<false, 2, 4>(10); });
 //@ heavy=1 tier=thorough
-harness!(c13_join_set_3, 18, { join_check::<true, 3, 9>(17); });
+harness!(c13_join_set_3, 11, { join_check::<true, 3, 9>(17); });
 //@ heavy=1 tier=thorough
-harness!(c13_join_multiset_3, 18, { join_check::<false, 3, 9>(17); });
+harness!(c13_join_multiset_3, 11, { join_check::<false, 3, 9>(17); });
